@@ -828,6 +828,15 @@ package biscuit
 // no check has failed and the checks of every block have been evaluated (one block
 // world is recorded per block), wherever in the function such a return statement stands;
 // a collected check failure is always reported as an error.
+// Every check is evaluated by running its queries, every time (C04; C03 for the checks of
+// a block, which are evaluated in that block's world): a completed iteration of a check
+// loop passes through its query loop, and every block's iteration through its check loop.
+// Structural obligations, decided on the control-flow graph.
+//@ loop 2 runs loop 3 [C04]
+//@ loop 4 runs loop 5 [C04]
+//@ loop 6 runs loop 7 [C04]
+//@ loop 8 runs loop 11 [C03 C04]
+//@ loop 11 runs loop 12 [C03 C04]
 //@ ensures retval_policyResult__only_after_every_check_passed[C04]: len(errs) == 0 && policyMatched && len(v.block_worlds) == old(len(v.block_worlds)) + len(v.biscuit.blocks)
 //@ ensures retval_ErrNoMatchingPolicy__only_after_every_check_passed[C04]: len(errs) == 0 && !policyMatched && len(v.block_worlds) == old(len(v.block_worlds)) + len(v.biscuit.blocks)
 //@ ensures success_only_after_every_block[C04]: err == nil ==> len(v.block_worlds) == old(len(v.block_worlds)) + len(v.biscuit.blocks)
